@@ -195,8 +195,65 @@ func checkNarrowArithmetic(w *core.World, r *core.Report, rule string, fns []*ss
 				bd = core.NewBounds(fn, intBits(w))
 			}
 			tlo, thi, _ := bd.TypeRange(bo.Type())
-			xlo, xhi, okx := bd.RangeAt(bo, bo.X)
-			ylo, yhi, oky := bd.RangeAt(bo, bo.Y)
+			rangeOf := func(v ssa.Value) (int64, int64, bool) {
+				lo, hi, ok := bd.RangeAt(bo, v)
+				// x % c of an unsigned x lies in [0, c-1]; conversions of it keep that range
+				inner := v
+				for d := 0; d < 3; d++ {
+					if cv, isC := inner.(*ssa.Convert); isC {
+						inner = cv.X
+					}
+				}
+				remBound := func(x ssa.Value) (int64, bool) {
+					for d := 0; d < 3; d++ {
+						if cv, isC := x.(*ssa.Convert); isC {
+							x = cv.X
+						}
+					}
+					if rb, isB := x.(*ssa.BinOp); isB && rb.Op == token.REM {
+						if c, isK := core.ConstInt(rb.Y); isK && c > 0 {
+							if xl, _, okx := bd.TypeRange(rb.X.Type()); okx && xl >= 0 {
+								return c - 1, true
+							}
+						}
+					}
+					return 0, false
+				}
+				top, found := remBound(inner)
+				if !found {
+					// a result of a helper of the module whose every return is such a remainder
+					if cc, ri, isE := core.ExtractOf(inner); isE {
+						if g := core.StaticCallee(cc); g != nil && len(g.Blocks) > 0 && w.InLib(g) {
+							all, n := true, 0
+							for _, x := range allInstrs(g) {
+								if ret, isR := x.(*ssa.Return); isR && ri < len(ret.Results) {
+									n++
+									if t2, ok2 := remBound(ret.Results[ri]); ok2 {
+										if t2 > top {
+											top = t2
+										}
+									} else {
+										all = false
+									}
+								}
+							}
+							found = all && n > 0
+						}
+					}
+				}
+				if found {
+					if !ok || lo < 0 {
+						lo = 0
+					}
+					if !ok || hi > top {
+						hi = top
+					}
+					ok = true
+				}
+				return lo, hi, ok
+			}
+			xlo, xhi, okx := rangeOf(bo.X)
+			ylo, yhi, oky := rangeOf(bo.Y)
 			fits := false
 			if okx && oky {
 				switch bo.Op {
@@ -217,4 +274,106 @@ func checkNarrowArithmetic(w *core.World, r *core.Report, rule string, fns []*ss
 		}
 	}
 	return n
+}
+
+// checkIntDecoderTotal (C14 R8, C06 R9): the integer decoder accepts operand lengths 0..4; on every
+// success path the value it returns is decoded from the operand bytes, except behind the
+// 'length is 0' edge. A value that (also) derives from the length byte on a path where the length
+// may be positive means some accepted length has no decoding of its own (a `switch l {1,2,4}`
+// leaves 3-byte operands with the default).
+func checkIntDecoderTotal(w *core.World, r *core.Report, rule string) {
+	fn := primitiveDecoder(w, "I")
+	if fn == nil {
+		r.Undecided(rule, "integer decoder", token.NoPos, "role not resolved")
+		return
+	}
+	r.Touch(core.QName(fn))
+	// the length byte: first byte of the bytecode parameter
+	var buf *ssa.Parameter
+	for _, p := range fn.Params {
+		if core.ByteLike(p.Type()) {
+			buf = p
+		}
+	}
+	isLenByte := func(v ssa.Value) bool {
+		for _, src := range append(core.Sources(v), v) {
+			if uo, ok := src.(*ssa.UnOp); ok && uo.Op == token.MUL {
+				if ia, ok := uo.X.(*ssa.IndexAddr); ok && core.Strip(ia.X) == ssa.Value(buf) {
+					if k, ok := core.ConstInt(ia.Index); ok && k == 0 {
+						return true
+					}
+				}
+			}
+		}
+		return false
+	}
+	// edges on which the length is known to be 0
+	var zero []core.Edge
+	for _, in := range allInstrs(fn) {
+		bo, ok := in.(*ssa.BinOp)
+		if !ok {
+			continue
+		}
+		x, op, c, ok := core.CmpConst(bo)
+		if !ok || !isLenByte(x) {
+			continue
+		}
+		switch {
+		case op == token.GTR && c == 0, op == token.NEQ && c == 0, op == token.GEQ && c == 1:
+			zero = append(zero, core.EdgesWhere(bo, false)...)
+		case op == token.EQL && c == 0, op == token.LEQ && c == 0, op == token.LSS && c == 1:
+			zero = append(zero, core.EdgesWhere(bo, true)...)
+		}
+	}
+	zeroSet := map[core.Edge]bool{}
+	for _, e := range zero {
+		zeroSet[e] = true
+	}
+	bad := ""
+	var badPos token.Pos
+	n := 0
+	var walk func(v ssa.Value, at ssa.Instruction, d int)
+	walk = func(v ssa.Value, at ssa.Instruction, d int) {
+		if d > 6 || bad != "" {
+			return
+		}
+		if phi, ok := v.(*ssa.Phi); ok {
+			for i, e := range phi.Edges {
+				pred := phi.Block().Preds[i]
+				if isLenByte(e) {
+					// the edge pred -> phi block must be a zero-length edge, or pred lies behind one
+					okEdge := false
+					for si, sc := range pred.Succs {
+						if sc == phi.Block() && zeroSet[core.Edge{From: pred, Succ: si}] {
+							okEdge = true
+						}
+					}
+					if !okEdge && len(pred.Instrs) > 0 {
+						if ok2, _ := core.MustPass(pred.Instrs[0], core.NewCut().AddEdge(zero...)); ok2 && len(zero) > 0 {
+							okEdge = true
+						}
+					}
+					if !okEdge {
+						bad = "the returned value is the length byte itself on a path where the length may be positive"
+						badPos = phi.Pos()
+					}
+					continue
+				}
+				walk(e, pred.Instrs[len(pred.Instrs)-1], d+1)
+			}
+			return
+		}
+		if isLenByte(v) {
+			if ok2, _ := core.MustPass(at, core.NewCut().AddEdge(zero...)); !ok2 || len(zero) == 0 {
+				bad = "the returned value is the length byte itself on a path where the length may be positive"
+				badPos = at.Pos()
+			}
+		}
+	}
+	for _, ret := range successReturns(fn) {
+		n++
+		walk(core.ReturnValue(ret, 0), ret, 0)
+	}
+	r.Check(bad == "" && n > 0, rule, "integer decoder: every accepted length is decoded from the operand bytes", badPos, "the length byte reaches the result only behind the 'length is 0' edge",
+		"an operand of some accepted length is not decoded: its value is replaced by the length byte (a 3-byte signal or size decodes as 3): "+bad)
 }
